@@ -64,10 +64,14 @@ def prelude():
         bin_impls += (f"impl core::ops::{tr} for $t {{ type Output = $t; fn {m}(self, r: $t) -> $t {{ $t(mix({code}, self.0, r.0)) }} }}\n"
                       f"impl core::ops::{tr}<K> for $t {{ type Output = $t; fn {m}(self, r: K) -> $t {{ $t(mix({code + 100}, self.0, r.0)) }} }}\n"
                       f"impl core::ops::{tr}Assign for $t {{ fn {m}_assign(&mut self, r: $t) {{ self.0 = mix({code}, self.0, r.0); }} }}\n"
-                      f"impl core::ops::{tr}Assign<K> for $t {{ fn {m}_assign(&mut self, r: K) {{ self.0 = mix({code + 100}, self.0, r.0); }} }}\n")
+                      f"impl core::ops::{tr}Assign<K> for $t {{ fn {m}_assign(&mut self, r: K) {{ self.0 = mix({code + 100}, self.0, r.0); }} }}\n"
+                      f"impl core::ops::{tr}<KN> for $t {{ type Output = $t; fn {m}(self, r: KN) -> $t {{ $t(mix({code + 100}, self.0, r.0)) }} }}\n"
+                      f"impl core::ops::{tr}Assign<KN> for $t {{ fn {m}_assign(&mut self, r: KN) {{ self.0 = mix({code + 100}, self.0, r.0); }} }}\n")
     return ("""
 pub fn mix(o: u64, l: u64, r: u64) -> u64 { ((l.wrapping_mul(0x9E3779B97F4A7C15)).rotate_left(5) ^ r).wrapping_mul(0x100000001B3).wrapping_add(o) }
 #[derive(Clone, Copy)] pub struct K(pub u64);
+// a scalar that is neither Copy nor Clone: a single-field struct can be multiplied by it (nothing has to be duplicated)
+pub struct KN(pub u64);
 macro_rules! tagty { ($t:ident) => {
 #[derive(Clone, Copy, Debug, PartialEq)] pub struct $t(pub u64);
 """ + bin_impls + """
@@ -145,7 +149,8 @@ def module(c, key, max_items):
         lines.append(f"{derives}\n{attr}pub struct S{variant_body(v)}" + (";" if v["k"] == "tuple" else ""))
         lv = variant_val(v, lambda i: 11 + i, "S")
         rv = variant_val(v, lambda i: 21 + i, "S")
-        body = [f"let l = {lv}; let r = {rv}; let k = K(5); let mut out: Vec<Vec<u64>> = vec![];"]
+        scalar = "KN(5)" if v["n"] == 1 else "K(5)"
+        body = [f"let l = {lv}; let r = {rv}; let k = {scalar}; let mut out: Vec<Vec<u64>> = vec![];"]
         if d in ("Sum", "Product"):
             m = "sum" if d == "Sum" else "product"
             for n_items in range(max_items + 1):
